@@ -450,5 +450,36 @@ PROPS["C12"] = {
     "assumptions": ["signatures are unforgeable", "strings of the generated documents are NFC (no NFC table is passed)"],
 }
 
+PROPS["C19"] = {
+    "package": "c19", "exe": "m_c19",
+    "rule": "random repositories: 1..7 targets (names with spaces, non-ASCII, '%', sub-directories; sizes 0..4097) spread over "
+            "a delegation tree of up to 6 roles, depth <= 3 (role names with spaces, '/', '..', non-ASCII, '%41', digits), every "
+            "role trusted for exactly what its subtree lists; root chains of 1..3 versions (the client ships version 1); both "
+            "consistent-snapshot settings; with and without pinned lengths / hashes. The source is served from memory the way "
+            "a web server would (percent-decoded paths). Each repository is loaded with the real client, then "
+            "`Repository::cache` is called with all targets or a random subset (<= 4), with or without the root chain; in "
+            "1 case of 5 one target file of the source is corrupted. Observed: result of `cache`, every file below the "
+            "sandbox (escapes), the metadata directory (names, byte identity with the source), every target (identical / "
+            "different / absent, unexpected files), then the copy is loaded through file:// URLs (with the shipped root when "
+            "the chain was copied, else with the trusted root) and every cached target is read back. 250 / 4000 repositories.",
+    "explanation": "Theorems (Tough/Props/C19.lean, Tough/Proofs/ClientCongr.lean): an update cycle depends on the "
+                   "repository only through the files it requests (cycle_congr: two servers that answer alike for every "
+                   "requested file give the same cycle, by induction through the root walk, the delegation loading and "
+                   "every phase); hence a copy that holds every requested file loads exactly like the original "
+                   "(cached_copy_loads_alike; its hypothesis is evaluated by the driver on every generated repository); "
+                   "the copy answers only for copied files (cachedServer_get, copy_serves_only_copied); with the chain "
+                   "requested every root version 1..trusted is among the copied files (root_chain_complete). "
+                   "Correspondence: which metadata files are copied, whether `cache` succeeds, and what loading the copy "
+                   "yields, vs the model; the property is evaluated directly on the directories.",
+    "level_text": "Kernel-checked frame theorem of the client model (the cycle depends only on requested files) and its corollary "
+                  "for copies; differential runs of cache + reload over random repositories with odd names.",
+    "level_note": "PARTIAL: that the files `cache_metadata_impl` copies cover the requests of a loading cycle is evaluated per "
+                  "generated repository, not proved for all; target copying rests on C08 (save_target); metadata is re-fetched "
+                  "from the source without verification (a source that changes between load and cache is outside the model); "
+                  "known finding: a cached target whose name needs URL escaping cannot be read back through file://.",
+    "trusted": ["modelled, not verified: tokio file I/O (after the fix: write_all + flush), Url::join, the file system"],
+    "assumptions": ["the source does not change between `load` and `cache`"],
+}
+
 _PENDING = "check under construction in this session (DESIGN.md §10 order of work); not claimed until it runs"
 NOT_APPLICABLE = {f"C{i:02d}": _PENDING for i in range(1, 21)}
